@@ -129,6 +129,7 @@ inductive Label where
   | tlfRepark (f : Fid) (j : Nat)                -- `f M m park_timed 0 j=j` after a wake-up
   | cvWait (f : Fid) (w : Option Fid)            -- unlock + notify_one + `f M cq park 0`
   | cvWaitFor (f : Fid) (w : Option Fid) (t d j : Nat)
+  | cvWaitUntil (f : Fid) (w : Option Fid) (t req j : Nat)   -- `cv.wait_until(lk, tp)`: `req` = `tp`, possibly in the past
   | cvTimeout (f : Fid) (t : Nat)                -- `f M cq wake 1 @t`
   | notifyOne (f : Fid) (w : Option Fid)         -- `f M cq notify_one r idx`
   | notifyAll (f : Fid)                          -- `f M cq notify_all r`
@@ -171,6 +172,10 @@ def doCvWait (s : State) (f : Fid) (w : Option Fid) : State :=
 def doCvWaitFor (s : State) (f : Fid) (w : Option Fid) (t d j : Nat) : State :=
   let s1 := release s f w
   { s1 with cq := s1.cq ++ [f], pc := upd s1.pc f (.cvTimed (t + d) (t + d + j)), now := t }
+
+def doCvWaitUntil (s : State) (f : Fid) (w : Option Fid) (t req j : Nat) : State :=
+  let s1 := release s f w
+  { s1 with cq := s1.cq ++ [f], pc := upd s1.pc f (.cvTimed req (req + j)), now := t }
 
 def doCvTimeout (s : State) (f : Fid) (t : Nat) : State :=
   { s with cq := rm s.cq f, pc := upd s.pc f (.locking (.cv true)), now := t }
@@ -217,6 +222,9 @@ inductive Step : State → Label → State → Prop where
       Step s (.cvWait f w) (doCvWait s f w)
   | cvWaitFor (s : State) (f : Fid) (w : Option Fid) (t d j : Nat) (h : s.pc f = .idle) (hh : f ∈ s.holders)
       (hw : PickOk s.mq w) (ht : s.now ≤ t) : Step s (.cvWaitFor f w t d j) (doCvWaitFor s f w t d j)
+  /-- the same with an absolute deadline (`wait_until`; the predicate overload waits again for the same time point) -/
+  | cvWaitUntil (s : State) (f : Fid) (w : Option Fid) (t req j : Nat) (h : s.pc f = .idle) (hh : f ∈ s.holders)
+      (hw : PickOk s.mq w) (ht : s.now ≤ t) : Step s (.cvWaitUntil f w t req j) (doCvWaitUntil s f w t req j)
   | cvTimeout (s : State) (f : Fid) (t req dl : Nat) (h : s.pc f = .cvTimed req dl) (hd : dl ≤ t) (ht : s.now ≤ t) :
       Step s (.cvTimeout f t) (doCvTimeout s f t)
   | notifyOne (s : State) (f : Fid) (w : Option Fid) (h : s.pc f = .idle) (hw : PickOk s.cq w) :
@@ -277,6 +285,8 @@ def next (s : State) : Label → Option State
   | .cvWait f w => if s.pc f = .idle ∧ f ∈ s.holders ∧ PickOk s.mq w then some (doCvWait s f w) else none
   | .cvWaitFor f w t d j =>
       if s.pc f = .idle ∧ f ∈ s.holders ∧ PickOk s.mq w ∧ s.now ≤ t then some (doCvWaitFor s f w t d j) else none
+  | .cvWaitUntil f w t req j =>
+      if s.pc f = .idle ∧ f ∈ s.holders ∧ PickOk s.mq w ∧ s.now ≤ t then some (doCvWaitUntil s f w t req j) else none
   | .cvTimeout f t =>
       match s.pc f with
       | .cvTimed _ dl => if dl ≤ t ∧ s.now ≤ t then some (doCvTimeout s f t) else none
@@ -361,6 +371,10 @@ theorem next_sound {s : State} {l : Label} {s' : State} (h : next s l = some s')
   | cvWaitFor f w t d j =>
       simp only [next] at h; split at h
       · rename_i hg; cases h; exact .cvWaitFor s f w t d j hg.1 hg.2.1 hg.2.2.1 hg.2.2.2
+      · cases h
+  | cvWaitUntil f w t req j =>
+      simp only [next] at h; split at h
+      · rename_i hg; cases h; exact .cvWaitUntil s f w t req j hg.1 hg.2.1 hg.2.2.1 hg.2.2.2
       · cases h
   | cvTimeout f t =>
       simp only [next] at h; split at h
